@@ -7,6 +7,7 @@ mod backend;
 mod monitors;
 mod prims;
 mod refimpl;
+mod rngshim;
 mod util;
 mod vectors;
 mod wraps;
